@@ -77,6 +77,8 @@ def _props_of(func, clause, kind):
             out |= {"C08", "C05"}
         if "_message_counter" in c or "ids_below" in c or "subset(" in c:
             out |= {"C09"}
+        if "forall(j" in c and "UnbindRequest" in c:
+            out |= {"C05", "C11"}      # receive never returns a termination message: what the C11 termination steps rest on
         return out or {"C05"}
     if "_session" in f or f == "history":
         is_client = "LDAPClient" in f
